@@ -33,7 +33,7 @@ COMPONENTS = {
 ASSUMPTIONS = [
     'ordering (E3), path agreement (E4) and load scaling (E5) are demanded only for sub-critical destabilising pairs (KG negative semi-definite on the active block, all finite multipliers > 1), as the statement says',
     'exceptions raised by the analysis (e.g. shape errors when fewer than num_eigvalues values exist) are counted, not flagged: the property constrains what is returned',
-    'multipliers more than 1e6 times larger in magnitude than the smallest one (|mu| < 1e-6 of the spectrum scale) are numerically infinite for the shift-invert transform and are not judged',
+    'multipliers more than 1e6 times larger in magnitude than the smallest one (|mu| < 1e-6 of the spectrum scale) are numerically infinite for the shift-invert transform and are not judged; the same holds for |mu| < 1.5e-14 absolute (64 ulps of the Cayley-transformed value at the fixed shift sigma=1)',
     'model-based pairs whose stiffness is not positive definite on the active amplitudes (rigid-body modes from free edges) are outside the precondition and skipped',
 ]
 
@@ -56,11 +56,15 @@ def generate(seed, batch):
             'cond_exp': rng.choice([0.5, 1.0, 2.0, 4.0]), 'clustered': rng.random() < 0.3, 'chain': rng.random() < 0.12,
             'kg': rng.choice(['nsd-full', 'nsd-full', 'minus-identity', 'nsd-lowrank', 'w-only', 'mixed']),
             'rank': rng.randint(1, max(1, n)), 'mseed': rng.getrandbits(40),
-            'lam_min': rng.uniform(1.05, 30.0) if sub else rng.uniform(0.05, 0.95),
+            # (sub-critical: also reference loads far below buckling, multipliers up to 1e11)
+            'lam_min': (10 ** rng.uniform(1.5, 11.0) if rng.random() < 0.15 else rng.uniform(1.05, 30.0)) if sub else rng.uniform(0.05, 0.95),
         }
         scen['k'] = rng.choice([1, 2, 3, 5, 10, 25, rng.randint(1, 25)])
         scen['scale_s'] = rng.uniform(0.1, 0.95) if rng.random() < 0.4 else None
         scen['cross_path'] = rng.random() < 0.4
+        scen['second_pair'] = rng.random() < 0.3
+        # an earlier analysis in the same process that asked for a loose solver tolerance (result not judged)
+        scen['loose_first'] = 10 ** rng.uniform(-3, -1) if rng.random() < 0.15 else None
         if batch == 'FI':
             nf = rng.choice([1, 1, 1, 2, 3])
             calls = rng.sample([1, 2, 3], nf)
@@ -135,7 +139,7 @@ def shrink_candidates(scen):
             c = copy.deepcopy(scen)
             del c['faults'][i]
             yield c
-    for key, val in (('scale_s', None), ('cross_path', False), ('redefine_flags', None), ('second_v0', False), ('model_scale', None)):
+    for key, val in (('scale_s', None), ('cross_path', False), ('redefine_flags', None), ('second_v0', False), ('model_scale', None), ('second_pair', False), ('loose_first', None)):
         if scen.get(key) not in (val,):
             c = copy.deepcopy(scen)
             c[key] = val
@@ -238,12 +242,12 @@ def build_model_matrices(scen):
     return cc
 
 
-def call_impl(scen, K, KG, k, sparse, obj=None):
+def call_impl(scen, K, KG, k, sparse, obj=None, tol=0):
     """Runs the implementation; returns (eigvals, eigvecs, pos) where pos = leading rows that are padding."""
     impl = scen['impl']
     if impl == 'analysis':
         from compmech.analysis import lb
-        vals, vecs = lb(K, KG, tol=0, sparse_solver=sparse, silent=True, num_eigvalues=k)
+        vals, vecs = lb(K, KG, tol=tol, sparse_solver=sparse, silent=True, num_eigvalues=k)
         return vals, vecs, 0
     if impl == 'panel':
         from compmech.panel import Panel
@@ -262,7 +266,7 @@ def call_impl(scen, K, KG, k, sparse, obj=None):
         else:
             p = obj
         p.num_eigvalues = k
-        p.lb(tol=0, sparse_solver=sparse, silent=True)
+        p.lb(tol=tol, sparse_solver=sparse, silent=True)
         return p.eigvals, p.eigvecs, 0
     if impl == 'conecyl':
         from compmech.conecyl import ConeCyl
@@ -279,7 +283,7 @@ def call_impl(scen, K, KG, k, sparse, obj=None):
         else:
             cc = obj
         cc.num_eigvalues = k
-        cc.lb(tol=0)
+        cc.lb(tol=tol)
         return cc.eigvals, cc.eigvecs, 3
     raise HarnessError('impl ' + str(impl))
 
@@ -312,13 +316,16 @@ def check_result(scen, Kd, Gd, active, vals, vecs, pos, k, sparse, ref, log, res
     def infinite(lam):
         # |mu| = 1/|lambda| below 1e-6 of the spectrum scale: numerically an infinite multiplier (the shift-invert
         # transform cannot separate it from the null space of KG), not judged
-        return (not np.isfinite(lam)) or lam == 0 or abs(1.0 / lam) <= 1e-6 * scale_mu or scale_mu == 0
+        # ... nor when |mu| is below 64 ulps of the transformed value nu=(mu+1)/(mu-1) ~ -1 the solver works with (fixed
+        # shift sigma=1): a true mu=0 (mode in the null space of KG) comes back as mu ~ 1e-16, i.e. lambda ~ 1e15-1e16
+        return (not np.isfinite(lam)) or lam == 0 or abs(1.0 / lam) <= max(1e-6 * scale_mu, 1.5e-14) or scale_mu == 0
 
     def pbound(mu):
         # first-order perturbation bound for the definite pencil (KG, K) under a relative backward error of 1e-12
         # plus the resolution of the Cayley transform around sigma=1, w'=(mu+1)/(mu-1): d(mu) ~ eps*cond(K)/2
+        # (the second term only for the sparse path; the dense generalised solver has no transform)
         return 1e-12 * (nG / max(abs(mu), 1e-300) + nK) / ref['lmin'] + \
-            2e-15 * (nK / ref["lmin"]) * max(1.0, 1.0 / max(abs(mu), 1e-300))
+            (2e-15 * (nK / ref["lmin"]) * max(1.0, 1.0 / max(abs(mu), 1e-300)) if sparse else 0.0)
 
     def rtol(mu):
         return min(1e-4, max(1e-7, pbound(mu)))
@@ -340,7 +347,9 @@ def check_result(scen, Kd, Gd, active, vals, vecs, pos, k, sparse, ref, log, res
         r = np.linalg.norm(Kd.dot(v) + lam * Gd.dot(v))
         # solver precision: 1e-8 relative backward error, relaxed when the multiplier is far from the fixed shift
         # sigma=1 (Cayley transform resolution ~ eps*cond(K)/|mu|), never beyond 1e-4
-        relb = max(1e-8, min(1e-4, 2e-15 * (nK / ref['lmin']) * max(1.0, abs(lam)))) if sparse else 1e-8
+        # ... except for the floating-point resolution of the transformed value itself: nu = (mu+1)/(mu-1) ~ -1 - 2 mu is a
+        # double, so mu = -1/lambda is known to ~eps at best, i.e. lambda to a relative 4e-15*|lambda| (multipliers > 2.5e10)
+        relb = max(1e-8, min(1e-4, 2e-15 * (nK / ref['lmin']) * max(1.0, abs(lam))), 4e-15 * abs(lam)) if sparse else 1e-8
         bound = relb * (nK + abs(lam) * nG) * nv
         worst = max(worst, r / max(bound, 1e-300))
         if not (r <= bound):
@@ -366,6 +375,26 @@ def check_result(scen, Kd, Gd, active, vals, vecs, pos, k, sparse, ref, log, res
             raise Violation('E1-value' + tag, {'why': 'returned multiplier is not an eigenvalue of the pair (or is returned more often than its multiplicity)',
                                                'lambda': float(-1.0 / m_)})
         del refl[j]
+    # E3 count, for sub-critical destabilising pairs (the case the property speaks about): "the k lowest positive multipliers",
+    # so when the pair has at least k positive multipliers that are finite for the solver, k finite positive values have to
+    # come back.  (For super-critical pairs the last-resort retry of ConeCyl.lb, buckling mode around -1, legitimately prefers
+    # infinite multipliers to positive ones below 0.5; nothing is demanded there beyond E1/E2.)
+    thr = 10.0 * max(1e-6 * scale_mu, 1.5e-14)
+    counted = [m_ for m_ in mu_ref if m_ < -thr]
+    n_expect = min(k, len(counted), max(len(active) - 2, 0) if sparse else len(counted))
+    if n_expect and ref['subcritical'] and not any(ill(m_) for m_ in counted):
+        if len(vals) < n_expect:
+            raise Violation('E3-count' + tag, {'why': 'fewer multipliers returned than requested although the pair has that many positive ones',
+                                               'requested': int(k), 'returned': int(len(vals)), 'positive_reference_values': len(counted)})
+        fin_pos = [float(x) for x in vals if not infinite(x) and x > 0]
+        if len(fin_pos) < n_expect:
+            cs_ = np.sort(-1.0 / np.asarray(counted))
+            spare = int(np.sum(np.abs(np.diff(cs_)) <= 1e-7 * np.abs(cs_[1:]))) if len(cs_) > 1 else 0
+            raise Violation('E3-count' + tag, {'why': 'infinite or negative multipliers returned in place of positive finite ones',
+                                               'requested': int(k), 'finite_positive_returned': len(fin_pos),
+                                               'positive_reference_values': len(counted), 'returned': [float(x) for x in vals[:8]],
+                                               'degenerate_undercount': bool(spare and n_expect - len(fin_pos) <= spare)})
+        bump(res['probes'], 'E3_count_checked')
     # E3 ordering for sub-critical destabilising pairs
     if ref['subcritical']:
         pos_sorted = ref['lam_pos']
@@ -441,7 +470,12 @@ def execute(scen):
         scale = np.abs(mu).max()
         nsd = mu.max() <= 1e-10 * scale
         lam_pos = np.sort(-1.0 / mu[mu < -1e-9 * scale])
-        sub = bool(nsd and len(lam_pos) and lam_pos.min() > 1.0)
+        # sub-critical and destabilising: there are positive multipliers and the smallest one exceeds 1.  With a
+        # mixed-sign KG the negative multipliers are farther from the shift in the Cayley metric |l-1|/|l+1| (> 1)
+        # than every positive one above 1 (< 1), so the positive ones still have to come first, ascending
+        sub = bool(len(lam_pos) and lam_pos.min() > 1.0)
+        if sub and not nsd:
+            bump(res['probes'], 'subcritical_with_mixed_sign_KG')
         ref = {'mu': mu, 'lam': lam, 'lam_pos': lam_pos, 'subcritical': sub,
                'lmin': float(np.linalg.eigvalsh(Kd[np.ix_(active, active)]).min())}
         K = csr_matrix(Kd)
@@ -451,6 +485,14 @@ def execute(scen):
 
         seam.install([m_lb, m_panel, m_cc])
         outcome = None
+        if scen.get('loose_first'):
+            saved_faults, seam.faults = seam.faults, {}
+            try:
+                call_impl(scen, K, KG, k, sparse, obj=None if (scen['src'] == 'model' and scen['impl'] == 'analysis') else obj, tol=scen['loose_first'])
+            except Exception as e:
+                bump(res['exceptions'], 'loose_first_' + type(e).__name__)
+            seam.faults, seam.calls, seam.modes = saved_faults, 0, []
+            bump(res['probes'], 'loose_tolerance_call_first')
         try:
             if scen['src'] == 'model' and scen['impl'] == 'analysis':
                 vals, vecs, pos = call_impl(scen, K, KG, k, sparse)
@@ -481,6 +523,28 @@ def execute(scen):
                 else:
                     check_result(scen, Kd, Gd, active, vals2, vecs2, pos, k, not sparse, ref, log, res, tag='(other-path)')
                     bump(res['probes'], 'E4_checked')
+            if scen.get('second_pair') and scen['src'] == 'random':
+                # a second analysis of the same size and mode count with other null rows, in the same process
+                first_sha = (sha_bytes(np.ascontiguousarray(vals).tobytes()), sha_bytes(np.ascontiguousarray(vecs).tobytes()))
+                mat2 = dict(scen['mat'])
+                mat2['mseed'] = scen['mat']['mseed'] ^ 0x9E3779B9
+                mat2['nnull'] = max(1, min(scen['mat']['n'] // 4, scen['mat']['nnull'] + 2))
+                K2d, G2d, act2 = eig.make_pair_lb(mat2)
+                mu2, lam2 = eig.ref_lb(K2d, G2d, act2)
+                sc2 = np.abs(mu2).max()
+                pos2 = np.sort(-1.0 / mu2[mu2 < -1e-9 * sc2])
+                refp = {'mu': mu2, 'lam': lam2, 'lam_pos': pos2, 'subcritical': bool(len(pos2) and pos2.min() > 1.0),
+                        'lmin': float(np.linalg.eigvalsh(K2d[np.ix_(act2, act2)]).min())}
+                seam.faults = {}
+                try:
+                    vals6, vecs6, pos6 = call_impl(scen, csr_matrix(K2d), csr_matrix(G2d), k, sparse)
+                except Exception as e:
+                    bump(res['exceptions'], 'second_pair_' + type(e).__name__)
+                else:
+                    check_result(scen, K2d, G2d, act2, vals6, vecs6, pos6, k, sparse, refp, log, res, tag='(second-pair)')
+                    bump(res['probes'], 'second_pair_checked')
+                if (sha_bytes(np.ascontiguousarray(vals).tobytes()), sha_bytes(np.ascontiguousarray(vecs).tobytes())) != first_sha:
+                    raise Violation('E9-result-altered', {'why': 'the arrays returned by the first analysis were modified by a later analysis'})
             if scen.get('second_v0'):
                 # the same analysis from another start vector / restart stream: still the true eigenpairs
                 seam.scen = dict(scen, v0={'cls': 'gauss', 'seed': scen['v0']['seed'] ^ 0x5DEECE66D})
@@ -551,7 +615,7 @@ def execute(scen):
                 sc2 = np.abs(mu2).max()
                 nsd2 = mu2.max() <= 1e-10 * sc2
                 pos2 = np.sort(-1.0 / mu2[mu2 < -1e-9 * sc2])
-                ref2 = {'mu': mu2, 'lam': lam2, 'lam_pos': pos2, 'subcritical': bool(nsd2 and len(pos2) and pos2.min() > 1.0),
+                ref2 = {'mu': mu2, 'lam': lam2, 'lam_pos': pos2, 'subcritical': bool(len(pos2) and pos2.min() > 1.0),
                         'lmin': float(np.linalg.eigvalsh(Kd2[np.ix_(act2, act2)]).min())}
                 try:
                     obj.num_eigvalues = k
@@ -586,7 +650,7 @@ def execute(scen):
         res['steps'] = ncalls
     except Violation as v:
         kid = None
-        if v.invariant.startswith('E3-order') and v.detail.get('degenerate_undercount'):
+        if v.invariant.startswith(('E3-order', 'E3-count')) and v.detail.get('degenerate_undercount'):
             kid = 'C05-degenerate-multiplicity'
         settle(res, v, kid)
     finally:
